@@ -4,6 +4,8 @@ from shexer.model.node_selector import NodeSelectorNoSparql, NodeSelectorSparql
 from rdflib.plugins import sparql
 import re
 
+_PROJECTED_VARIABLE = re.compile(r"select\s+(?:distinct\s+|reduced\s+)?[?$](\w+)", re.IGNORECASE)
+
 _QUOTES = ["'", '"']
 _WHITES_REGEX = re.compile(" +")
 
@@ -123,6 +125,10 @@ class NodeSelectorParser(object):
                                   sgraph=self._sgraph)
 
     def _parse_variable_in_single_variable_query(self, string_query):
+        # the name of the projected variable ends where the name does ('?x{', '?x\n', '?x\t'), not at the next blank
+        projected_var = _PROJECTED_VARIABLE.search(string_query)
+        if projected_var is not None:
+            return projected_var.group(1)
         index_first_char_var_name = string_query.find('?') + 1
         index_last_char_var_name = string_query[index_first_char_var_name:].find(" ") + index_first_char_var_name
         return string_query[index_first_char_var_name:index_last_char_var_name]
